@@ -178,6 +178,15 @@ def corpus():
            mk(["chain", [["spline", 1e-3, 0.0], ["trend", 1]]], [es, ns], [d1], [w1], q, "corpus-spline-steps"),
            mk(["chain", [["trend", 0], ["knn", 2, "mean"], ["moment"], ["knn", 1, "mean"]]], [es, ns], [d1], None, q, "corpus-four-predicting-steps"),
            mk(["chain", [["trend", 1], ["trend", 1]]], [es, ns], [d1], None, q, "corpus-same-step-twice")]
+    # a reduction that keeps EVERY point (one observation per block, e.g. data already on the block grid) with the points NOT listed in block
+    # order, followed by further steps, also nested: sizes before and after the reduction are equal but the order is the blocks'
+    ge_ = [0.5, 2.5, 1.5, 3.5, 2.5, 0.5, 3.5, 1.5]
+    gn_ = [1.5, 0.5, 0.5, 1.5, 1.5, 0.5, 0.5, 1.5]
+    gd_ = [4.0, -1.0, 2.5, 7.0, 0.5, 3.0, -2.0, 6.0]
+    one = ["block_reduce", [0.0, 4.0, 0.0, 2.0], None, [1.0, 1.0], "spacing", "median", False, True]
+    cs += [mk(["chain", [one, ["trend", 1], ["moment"]]], [ge_, gn_], [gd_], None, q, "corpus-one-point-per-block"),
+           mk(["chain", [["trend", 0], ["chain", [one, ["moment"]]], ["knn", 1, "mean"]]], [ge_, gn_], [gd_], None, q, "corpus-one-point-per-block"),
+           mk(["chain", [["chain", [one, ["trend", 1]]], ["moment"]]], [ge_, gn_], [gd_], None, q, "corpus-one-point-per-block")]
     # weights reaching a reduction that has no `weights` argument: the chain must fail exactly like the step itself (TypeError), not drop them
     wmed = ["block_reduce", [0.0, 4.0, 0.0, 2.0], None, [1.0, 2.0], "spacing", "median", False, True]
     cs += [mk(["chain", [wmed, ["moment"]]], [es, ns], [d1], [w1], q, "corpus-weights-into-unweighted-reduction"),
@@ -206,6 +215,22 @@ def generate(rng, tier):
             spec = ["chain", rand_steps(rng, reg, npts, ncomp, weighted)]
         tag = ""
         u = rng.random()
+        if rng.random() < 0.08 and ncomp == 1:
+            # data already on the block grid, in acquisition (not block) order: the reduction keeps every point
+            k1, k2 = rng.randint(2, 4), rng.randint(2, 4)
+            cells = [(i, j) for i in range(k1) for j in range(k2)]
+            rng.shuffle(cells)
+            es = [reg[0] + (j + 0.5) * 1.0 + rng.choice([-0.125, 0.0, 0.125]) for i, j in cells]
+            ns = [reg[2] + (i + 0.5) * 1.0 + rng.choice([-0.125, 0.0, 0.125]) for i, j in cells]
+            npts = len(es)
+            data = [B.values(rng, npts)]
+            weights = None
+            blk1 = ["block_reduce", [reg[0], reg[0] + k2, reg[2], reg[2] + k1], None, [1.0, 1.0], "spacing", rng.choice(["median", "mean"]), False, True]
+            inner = [blk1, rand_gridder1(rng, 2, True)]
+            spec = ["chain", rng.choice([[["chain", inner], ["moment"]], [blk1, ["trend", 1], ["moment"]], [["trend", 0], ["chain", inner]]])]
+            q = [[reg[0] + k2 * t / 4.0 + 0.0625 for t in range(5)], [reg[2] + k1 * ((3 * t) % 5) / 4.0 + 0.03125 for t in range(5)]]
+            cs.append(mk(spec, [es, ns], data, weights, q, "chain-one-point-per-block"))
+            continue
         if 0.2 <= u < 0.3 and ncomp == 1:
             # (damped) splines anywhere in the chain, also where their residual feeds a later step
             sp = lambda: ["spline", rng.choice([1e-3, 1e-2, 1e-1]), rng.choice([0.0, 0.5])]  # noqa: E731
